@@ -82,6 +82,14 @@ class DomainS(metaclass = Singleton):
             except SingletonError:
                 if clength != length:
                     raise SingletonError(f'Duplicate Singleton {cls.__name__}: name ({name}) has the wrong length {length} vs {clength}!')
+        elif length and name[-1] == '*':
+            # Forbid initialization of a complementary domain with conflicting length.
+            try:
+                clength = len(cls(cname))
+            except SingletonError:
+                clength = length
+            if clength != length:
+                raise SingletonError(f'Duplicate Singleton {cls.__name__}: name ({name}) has the wrong length {length} vs {clength}!')
         return ((name, length), name, newargs) if length is not None else (None, name, {})
 
     def __init__(self, name = None, length = None, prefix = None, dtype = None):
